@@ -69,6 +69,8 @@ def _run_unit(unit: Unit) -> dict:
         ex.run(unit.fn)
     except Unsupported as e:
         err, kind = str(e), "outside-subset"
+        if os.environ.get("PYVC_TRACE"):
+            err += "\n" + traceback.format_exc()
     except (UnitTimeout, _engine.DeadlinePassed):
         err, kind = f"unit exceeded its wall-clock budget of {limit}s", "timeout"
     except RecursionError as e:
